@@ -87,6 +87,11 @@ pub fn run(r: &Report) {
     let mut txs = gen::txs_witness_classes();
     txs.extend(gen::txs_input_variants());
     txs.extend(gen::txs_shapes().into_iter().step_by(if thorough { 1 } else { 3 }));
+    if !thorough {
+        // the transactions whose byte fields are also valid text (last entries of the shape generator)
+        let all = gen::txs_shapes();
+        txs.extend(all[all.len() - gen::TEXTY.len()..].iter().cloned());
+    }
     let libtxs: Vec<elements::Transaction> = txs.iter().map(to_tx).chain(crate::props::c04::blinded_samples(r.seed, 3)).collect();
     r.set_extra("transactions", json!(libtxs.len()));
     libtxs.par_iter().for_each(|t| serde_rt(r, "Transaction", "", t));
@@ -117,7 +122,8 @@ pub fn run(r: &Report) {
     for p in gen::params_menu() {
         serde_rt(r, "dynafed::Params", "", &to_params(&p));
     }
-    for f in gen::full_params(false).iter().step_by(if thorough { 1 } else { 9 }) {
+    let fps = gen::full_params(false);
+    for f in fps.iter().step_by(if thorough { 1 } else { 9 }).chain(fps[fps.len() - gen::TEXTY.len()..].iter()) {
         serde_rt(r, "dynafed::Params", "", &to_params(&RParams::Full(f.clone())));
         serde_rt(r, "dynafed::Params", "", &to_full(f).into_compact());
     }
@@ -140,6 +146,9 @@ pub fn run(r: &Report) {
     }
     for s in gen::scripts() {
         serde_rt(r, "Script", "", &elements::Script::from(s));
+    }
+    for t in gen::TEXTY {
+        serde_rt(r, "Script", "text-like", &elements::Script::from(t.to_vec()));
     }
     for k in 0..8u64 {
         let abf = AssetBlindingFactor::from_slice(gen::tweak(6000 + k).as_ref()).unwrap();
